@@ -14,10 +14,18 @@ Local Open Scope R_scope.
 (* ------------------------------------------------------------------------------------ *)
 Definition tr2 (a d : R) : R := a + d.
 Definition det2 (a b d : R) : R := a * d - b * b.
-Definition delta2 (a b d : R) : R := e2_delta (tr2 a d) (det2 a b d).
+(* e2_delta_post is the identity, or the clamp "delta[delta < 0] = 0" when the source has it *)
+Definition delta2 (a b d : R) : R := e2_delta_post (e2_delta (tr2 a d) (det2 a b d)).
+
+Lemma delta_post_id : forall x, 0 <= x -> e2_delta_post x = x.
+Proof. intros x H. unfold e2_delta_post; destruct (Rlt_dec x 0); try lra; reflexivity. Qed.
 
 Theorem delta2_sum_of_squares : forall a b d, delta2 a b d = (a - d) ^ 2 + 4 * b ^ 2.
-Proof. intros. unfold delta2, e2_delta, tr2, det2. ring. Qed.
+Proof.
+  intros. unfold delta2.
+  assert (H : e2_delta (tr2 a d) (det2 a b d) = (a - d) ^ 2 + 4 * b ^ 2) by (unfold e2_delta, tr2, det2; ring).
+  rewrite H. apply delta_post_id. pose proof (pow2_ge_0 (a - d)). pose proof (pow2_ge_0 b). lra.
+Qed.
 Print Assumptions delta2_sum_of_squares.
 
 Theorem delta2_nonneg : forall a b d, 0 <= delta2 a b d.
@@ -122,7 +130,7 @@ Example proj2d_instances :
 Proof.
   unfold M2_22; unfold M1_11, M1_22, M1entry.
   destruct (Req_EM_T (eig0 0 0 0) (eig1 0 0 0)) as [_ | Hne].
-  - unfold e2_M2. repeat split; try lra. unfold delta2, e2_delta, tr2, det2. ring.
+  - unfold e2_M2. repeat split; try lra. rewrite delta2_sum_of_squares. ring.
   - exfalso. apply Hne. apply proj2d_branch. split; reflexivity.
 Qed.
 
@@ -171,6 +179,31 @@ Qed.
 Lemma mul_0_l3 : forall N : Mat3, 0 * N = 0.  Proof. m3. Qed.
 Lemma sc_mul_0 : forall k : R, sc k * (0 : Mat3) = 0.  Proof. m3. Qed.
 
+(* generic algebra (any MatAlg): consequences of idempotence/orthogonality for M2 = I - (M1 + M3) *)
+Section GenericM2.
+Variable A : MatAlg.
+Variables p1 p3 : A.
+Lemma sum_gen : p1 + e3_M2 A p1 p3 + p3 = 1.
+Proof. unfold e3_M2. mat_ring. Qed.
+Lemma diff0_eq : forall l r : A, l - r = 0 -> l = r.
+Proof. intros l r H. replace l with ((l - r) + r) by mat_ring. rewrite H. mat_ring. Qed.
+Hypothesis i1 : p1 * p1 = p1.
+Hypothesis i3 : p3 * p3 = p3.
+Hypothesis o13 : p1 * p3 = 0.
+Hypothesis o31 : p3 * p1 = 0.
+Lemma m2_gen : let p2 := e3_M2 A p1 p3 in
+  p2 * p2 = p2 /\ p1 * p2 = 0 /\ p2 * p1 = 0 /\ p3 * p2 = 0 /\ p2 * p3 = 0.
+Proof.
+  unfold e3_M2. repeat split.
+  - replace ((1 - (p1 + p3)) * (1 - (p1 + p3))) with (1 - p1 - p1 - p3 - p3 + p1 * p1 + p3 * p3 + p1 * p3 + p3 * p1) by mat_ring.
+    rewrite i1, i3, o13, o31. mat_ring.
+  - replace (p1 * (1 - (p1 + p3))) with (p1 - p1 * p1 - p1 * p3) by mat_ring. rewrite i1, o13. mat_ring.
+  - replace ((1 - (p1 + p3)) * p1) with (p1 - p1 * p1 - p3 * p1) by mat_ring. rewrite i1, o31. mat_ring.
+  - replace (p3 * (1 - (p1 + p3))) with (p3 - p3 * p3 - p3 * p1) by mat_ring. rewrite i3, o31. mat_ring.
+  - replace ((1 - (p1 + p3)) * p3) with (p3 - p3 * p3 - p1 * p3) by mat_ring. rewrite i3, o13. mat_ring.
+Qed.
+End GenericM2.
+
 Section Sylvester.
 Variables a b c f g h : R.       (* X = [[a h g][h b f][g f c]] *)
 Variables v1 v2 v3 : R.
@@ -192,7 +225,7 @@ Proof.
 Qed.
 
 Theorem proj3d_distinct_sum : P1 + P2 + P3 = 1.
-Proof. unfold P2, e3_M2. mat_ring. Qed.
+Proof. apply sum_gen. Qed.
 
 Theorem proj3d_distinct_idem1 : P1 * P1 = P1.
 Proof.
@@ -201,7 +234,7 @@ Proof.
   rewrite charpoly_vanishes, mul_0_l3 in H.
   assert (H' : (X - sc v2 * 1) * (X - sc v3 * 1) * ((X - sc v2 * 1) * (X - sc v3 * 1))
                = sc ((v1 - v2) * (v1 - v3))%R * ((X - sc v2 * 1) * (X - sc v3 * 1))).
-  { match goal with |- ?l = ?r => replace l with ((l - r) + r) by mat_ring end. rewrite H. mat_ring. }
+  { apply diff0_eq. exact H. }
   rewrite H'. apply scale_back. field. split; intro; [apply d13 | apply d12]; lra.
 Qed.
 
@@ -214,7 +247,7 @@ Proof.
   rewrite Hc, mul_0_l3 in H.
   assert (H' : (X - sc v1 * 1) * (X - sc v2 * 1) * ((X - sc v1 * 1) * (X - sc v2 * 1))
                = sc ((v3 - v1) * (v3 - v2))%R * ((X - sc v1 * 1) * (X - sc v2 * 1))).
-  { match goal with |- ?l = ?r => replace l with ((l - r) + r) by mat_ring end. rewrite H. mat_ring. }
+  { apply diff0_eq. exact H. }
   rewrite H'. apply scale_back. field. split; intro; [apply d23 | apply d13]; lra.
 Qed.
 
@@ -228,24 +261,9 @@ Proof.
   unfold P1, P3, e3_M1, e3_M3. rewrite scale_2, orth_factor', charpoly_vanishes, mul_0_l3. apply sc_mul_0.
 Qed.
 
-Theorem proj3d_distinct_idem2 : P2 * P2 = P2.
+Theorem proj3d_distinct_M2 : P2 * P2 = P2 /\ P1 * P2 = 0 /\ P2 * P1 = 0 /\ P3 * P2 = 0 /\ P2 * P3 = 0.
 Proof.
-  unfold P2, e3_M2.
-  replace ((1 - (P1 + P3)) * (1 - (P1 + P3))) with (1 - P1 - P1 - P3 - P3 + P1 * P1 + P3 * P3 + P1 * P3 + P3 * P1) by mat_ring.
-  rewrite proj3d_distinct_idem1, proj3d_distinct_idem3, proj3d_distinct_orth13, proj3d_distinct_orth31. mat_ring.
-Qed.
-
-Theorem proj3d_distinct_orth12 : P1 * P2 = 0 /\ P2 * P1 = 0 /\ P3 * P2 = 0 /\ P2 * P3 = 0.
-Proof.
-  unfold P2, e3_M2. repeat split.
-  - replace (P1 * (1 - (P1 + P3))) with (P1 - P1 * P1 - P1 * P3) by mat_ring.
-    rewrite proj3d_distinct_idem1, proj3d_distinct_orth13. mat_ring.
-  - replace ((1 - (P1 + P3)) * P1) with (P1 - P1 * P1 - P3 * P1) by mat_ring.
-    rewrite proj3d_distinct_idem1, proj3d_distinct_orth31. mat_ring.
-  - replace (P3 * (1 - (P1 + P3))) with (P3 - P3 * P3 - P3 * P1) by mat_ring.
-    rewrite proj3d_distinct_idem3, proj3d_distinct_orth31. mat_ring.
-  - replace ((1 - (P1 + P3)) * P3) with (P3 - P3 * P3 - P1 * P3) by mat_ring.
-    rewrite proj3d_distinct_idem3, proj3d_distinct_orth13. mat_ring.
+  apply (m2_gen Mat3 P1 P3 proj3d_distinct_idem1 proj3d_distinct_idem3 proj3d_distinct_orth13 proj3d_distinct_orth31).
 Qed.
 
 (* spectral decomposition X = v1 P1 + v2 P2 + v3 P3 *)
@@ -270,16 +288,19 @@ Theorem proj3d_distinct_partial : forall a b c f g h v1 v2 v3 : R,
   X = sc v1 * P1 + sc v2 * P2 + sc v3 * P3.
 Proof.
   intros a b c f g h v1 v2 v3 H1 H2 H3 D12 D13 D23 X P1 P3 P2.
-  pose proof (proj3d_distinct_orth12 a b c f g h v1 v2 v3 H1 H2 H3 D12 D13 D23) as [Ha [Hb [Hc Hd]]].
+  pose proof (proj3d_distinct_M2 a b c f g h v1 v2 v3 H1 H2 H3 D12 D13 D23) as [H22 [Ha [Hb [Hc Hd]]]].
   repeat split.
-  - apply proj3d_distinct_sum.
-  - apply (proj3d_distinct_idem1 a b c f g h v1 v2 v3 H1 H2 H3 D12 D13).
-  - apply (proj3d_distinct_idem2 a b c f g h v1 v2 v3 H1 H2 H3 D12 D13 D23).
-  - apply (proj3d_distinct_idem3 a b c f g h v1 v2 v3 H1 H2 H3 D13 D23).
-  - apply (proj3d_distinct_orth13 a b c f g h v1 v2 v3 H1 H2 H3).
-  - apply (proj3d_distinct_orth31 a b c f g h v1 v2 v3 H1 H2 H3).
-  - exact Ha. - exact Hb. - exact Hc. - exact Hd.
-  - apply (proj3d_distinct_decomposition a b c f g h v1 v2 v3 D12 D13 D23).
+  - apply sum_gen.
+  - apply proj3d_distinct_idem1; assumption.
+  - exact H22.
+  - apply proj3d_distinct_idem3; assumption.
+  - apply proj3d_distinct_orth13; assumption.
+  - apply proj3d_distinct_orth31; assumption.
+  - exact Ha.
+  - exact Hb.
+  - exact Hc.
+  - exact Hd.
+  - apply proj3d_distinct_decomposition; assumption.
 Qed.
 Print Assumptions proj3d_distinct_partial.
 
